@@ -281,3 +281,77 @@ Proof.
   unfold gf_gws_Conn_genFrame_cond1, gf_gws_Conn_genFrame_cond2, gf_gws_Conn_genFrame_cond3, gf_gws_Conn_genFrame_cond4.
   rewrite gen_isDataFrame_is. repeat split. f_equal. lia.
 Qed.
+
+(* ---- the write path: genFrame's gates, doWrite's closed test and window update, compressData's dictionary choice,
+   writeClose's truncation, slideWindow.Write's branch conditions - each model follows the conditions regenerated from
+   the source ---- *)
+From Gws Require Import Model.Window.
+
+Section WriterTies.
+Variable utf8_valid : list N -> bool.
+Variable deflate_raw : list N -> list N -> list N.
+Variable W : Type.
+Variable wdict : W -> list N.
+Variable wwrite : W -> list N -> W.
+Notation gen_frame := (Writer.gen_frame utf8_valid deflate_raw).
+Notation do_write := (Writer.do_write utf8_valid deflate_raw W wdict wwrite).
+Notation compress_data := (Writer.compress_data deflate_raw).
+
+Theorem gen_frame_from_source c op slices fc key dict :
+  let payload := concat slices in
+  let n := Z.of_nat (length payload) in
+  gen_frame c op slices fc key dict
+  = if gf_gws_Conn_genFrame_cond1 (payload_check utf8_valid (fc_check fc) op slices) (Z.of_N op) then GErrEncoding
+    else if gf_gws_Conn_genFrame_cond2 (w_wlimit c) n then GErrTooLarge
+    else if gf_gws_Conn_genFrame_cond3 (w_threshold c) (fc_compress fc) n (Z.of_N op) then compress_data c op payload fc key dict
+    else backfill (w_server c) (generate_header (w_server c) (fc_fin fc) false op n key) key (repeat 0%N header_size ++ payload).
+Proof.
+  cbv zeta. unfold Writer.gen_frame, gf_gws_Conn_genFrame_cond1, gf_gws_Conn_genFrame_cond2, gf_gws_Conn_genFrame_cond3.
+  rewrite gen_isDataFrame_is. replace (Z.of_N op =? 1)%Z with (op =? 1)%N by lia. reflexivity.
+Qed.
+
+Theorem do_write_from_source c closed w op slices key :
+  do_write c closed w op slices key
+  = if gf_gws_Conn_doWrite_cond1 closed (Z.of_N op) then (None, w, WErrClosed) else
+    match gen_frame c op slices {| fc_fin := true; fc_compress := w_pmd c; fc_broadcast := false; fc_check := w_utf8 c |} key (wdict w) with
+    | GFrame fr => (Some fr, (if gf_gws_Conn_doWrite_cond3 (is_compressed_frame fr) then fold_left wwrite slices w else w), WOk)
+    | GErrEncoding => (None, w, WErrEncoding)
+    | GErrTooLarge => (None, w, WErrTooLarge)
+    | GPanic => (None, w, WPanic)
+    end.
+Proof.
+  unfold Writer.do_write, gf_gws_Conn_doWrite_cond1, gf_gws_Conn_doWrite_cond3.
+  replace (Z.of_N op =? 8)%Z with (op =? 8)%N by lia. reflexivity.
+Qed.
+
+Lemma compress_dict_from_source c op payload fc key dict :
+  compress_data c op payload fc key dict
+  = compress_data c op payload fc key (if gf_gws_Conn_compressData_cond1 (fc_broadcast fc) then dict else [])
+  /\ gf_gws_Conn_compressData_nconds = 3%nat.
+Proof.
+  split; [|reflexivity]. unfold Writer.compress_data, gf_gws_Conn_compressData_cond1.
+  destruct (fc_broadcast fc); reflexivity.
+Qed.
+End WriterTies.
+
+(* writeClose: `if len(reason) > ThresholdV1 { reason = reason[:ThresholdV1] }` *)
+Lemma truncate_from_source (b : list N) :
+  truncate_body b = (if gf_gws_Conn_writeClose_cond1 (Z.of_nat (length b)) then firstn 125 b else b)
+  /\ gf_gws_Conn_writeClose_nconds = 1%nat.
+Proof.
+  split; [|reflexivity]. unfold truncate_body, gf_gws_Conn_writeClose_cond1. change (Z.to_nat internal_ThresholdV1) with 125%nat.
+  destruct (Z.of_nat (length b) >? 125) eqn:E; [reflexivity|]. apply firstn_all2. lia.
+Qed.
+
+(* slideWindow.Write: the four branch conditions, in order *)
+Lemma window_conditions_from_source (w : window) (p : list N) :
+  let n := length p in let len := length (sw_dict w) in let m := (sw_size w - len)%nat in
+  gf_gws_slideWindow_Write_nconds = 4%nat
+  /\ gf_gws_slideWindow_Write_cond1 (sw_enabled w) = negb (sw_enabled w)
+  /\ gf_gws_slideWindow_Write_cond2 (Z.of_nat (sw_size w)) (Z.of_nat len) (Z.of_nat n) = (n + len <=? sw_size w)%nat
+  /\ (gf_gws_slideWindow_Write_cond3 (Z.of_nat (sw_size w) - Z.of_nat len) = (0 <? m)%nat)
+  /\ forall n1 : nat, gf_gws_slideWindow_Write_cond4 (Z.of_nat (sw_size w)) (Z.of_nat n1) = (sw_size w <=? n1)%nat.
+Proof.
+  cbv zeta. unfold gf_gws_slideWindow_Write_cond1, gf_gws_slideWindow_Write_cond2, gf_gws_slideWindow_Write_cond3, gf_gws_slideWindow_Write_cond4.
+  repeat split; try reflexivity; intros; lia.
+Qed.
